@@ -166,6 +166,9 @@ impl Plan {
                 "frame" => "frame",
                 "global-raw" => "global-raw",
                 "global-fp" => "global-fp",
+                "global-fp1" => "global-fp1",
+                "global-fp2" => "global-fp2",
+                "global-fp3" => "global-fp3",
                 _ => "inner",
             },
             via_tls: v["tls"].as_bool().unwrap_or(false),
@@ -197,6 +200,10 @@ fn wrap_kind(kind: &str) -> Wrap {
 }
 
 pub fn run_plan(plan: &Plan) -> Result<Observed, String> {
+    run_plan_ex(plan, plan.kind != "short-string")
+}
+
+pub fn run_plan_ex(plan: &Plan, aftermath: bool) -> Result<Observed, String> {
     let mut s = to_state(plan.state, plan.via_tls)?;
     let before = s.server.with(|sv| sv.out_total);
     match plan.layer {
@@ -215,9 +222,16 @@ pub fn run_plan(plan: &Plan) -> Result<Observed, String> {
     let data = plan.mutant.bytes.clone();
     let (res, alloc) = mon::observed(|| {
         let r = match layer {
-            "global-raw" | "global-fp" => match &mut s.client {
+            "global-raw" | "global-fp" | "global-fp1" | "global-fp2" | "global-fp3" => match &mut s.client {
                 Client::Plain(pc) => {
-                    let payload = if layer == "global-raw" { tpkt::Payload::Raw(Cursor::new(data)) } else { tpkt::Payload::FastPath(0, Cursor::new(data)) };
+                    // the fast-path entry is exercised with each value of the two security flag bits of the frame header
+                    let flag = match layer {
+                        "global-fp1" => 1,
+                        "global-fp2" => 2,
+                        "global-fp3" => 3,
+                        _ => 0,
+                    };
+                    let payload = if layer == "global-raw" { tpkt::Payload::Raw(Cursor::new(data)) } else { tpkt::Payload::FastPath(flag, Cursor::new(data)) };
                     pc.global.read(payload, &mut pc.mcs, |_| {})
                 }
                 _ => s.client.read(|_| {}),
@@ -231,6 +245,29 @@ pub fn run_plan(plan: &Plan) -> Result<Observed, String> {
     });
     let (server_bytes, delivered) = s.server.with(|sv| (sv.out_total, sv.delivered));
     let consumed_fault = plan.layer.starts_with("global") || delivered > before;
+    // aftermath: a hostile PDU may be swallowed quietly and leave state behind that only hurts later. The server goes
+    // on with a complete, well-formed activation, a bitmap and an error-info PDU, and the application offers input.
+    let mut res = res;
+    if aftermath && res.is_ok() {
+        let after = mon::guarded(|| {
+            for k in ["demand-active", "synchronize", "control-cooperate", "control-granted", "font-map", "fp-bitmap", "set-error-info", "fp-mixed"].iter() {
+                let (b, w) = build_kind(&s.profile, k, SID);
+                s.push(k, &b, w);
+                let _ = s.client.read(|_| {});
+            }
+            match &mut s.client {
+                Client::Real(rc) => {
+                    let _ = rc.try_write(rdp::core::event::RdpEvent::Key(rdp::core::event::KeyboardEvent { code: 0x1e, down: true }));
+                }
+                Client::Plain(pc) => {
+                    let _ = pc.global.write_input_event(rdp::core::global::ts_keyboard_event(Some(0), Some(0x1e)), &mut pc.mcs);
+                }
+            }
+        });
+        if let Err(p) = after {
+            res = Err(mon::PanicInfo { msg: format!("(in the well-formed traffic that followed) {}", p.msg), file: p.file, line: p.line });
+        }
+    }
     let n = if plan.layer.starts_with("global") { plan.mutant.bytes.len() } else { server_bytes };
     Ok(match res {
         Ok(o) => Observed { outcome: o, panic: None, alloc, server_bytes: n, consumed_fault },
@@ -319,6 +356,55 @@ fn all_plans(seed: u64, quick: bool) -> Vec<Plan> {
     plans
 }
 
+/// pairs of boundary faults, in the active state and in the state that parses the kind
+fn pair_plans(seed: u64, per: usize) -> Vec<Plan> {
+    let p = session::full_profile();
+    let mut plans = Vec::new();
+    let mut r = Rng::derive(seed, "C06-pairs", 0, 0);
+    for kind in KINDS.iter() {
+        let (b, _) = build_kind(&p, kind, SID);
+        let sub = fault::boundary_subset(&b);
+        if sub.len() < 2 {
+            continue;
+        }
+        for _ in 0..per {
+            let (i, j) = (r.below(sub.len() as u64) as usize, r.below(sub.len() as u64) as usize);
+            if let Some(m) = fault::pair_fault(&b, &sub, i.min(j), i.max(j)) {
+                let state = if r.chance(1, 2) { 5 } else { match *kind { "demand-active" => 0, "synchronize" => 1, "control-cooperate" => 2, "control-granted" => 3, "font-map" => 4, _ => r.below(6) as usize } };
+                plans.push(Plan { state, kind: kind.to_string(), layer: "inner", via_tls: false, mutant: m });
+            }
+        }
+    }
+    plans
+}
+
+fn random_plan(seed: u64, idx: u64) -> Plan {
+    let p = session::full_profile();
+    let mut r = Rng::derive(seed, "C06-rand", 2, idx);
+    let kind = *r.pick(&KINDS);
+    let other = *r.pick(&KINDS);
+    let (b, _) = build_kind(&p, kind, SID);
+    let (o2, _) = build_kind(&p, other, SID);
+    let m = fault::random_fault(&b, Some(&o2), &mut r);
+    Plan { state: r.below(6) as usize, kind: kind.to_string(), layer: "inner", via_tls: false, mutant: m }
+}
+
+/// entries of the short-string sweep: slow-path and fast-path (flags 0) in all six states, fast-path with flags 1, 2, 3
+/// before activation and in the active state
+fn short_plan(idx: u64, per_state: u64) -> Plan {
+    let s = fault::short_string(idx % per_state);
+    let block = idx / per_state;
+    let (state, layer) = if block < 6 {
+        (block as usize, "global-raw")
+    } else if block < 12 {
+        ((block - 6) as usize, "global-fp")
+    } else {
+        let b = block - 12;
+        (if b % 2 == 0 { 0 } else { 5 }, ["global-fp1", "global-fp2", "global-fp3"][(b / 2) as usize % 3])
+    };
+    Plan { state, kind: "short-string".into(), layer, via_tls: false, mutant: Mutant { class: "short-string".into(), bytes: s, at: 0 } }
+}
+
 pub fn run(cfg: &Cfg) -> Report {
     let seed = cfg.seed;
     let mut total = Report::new();
@@ -347,25 +433,7 @@ pub fn run(cfg: &Cfg) -> Report {
         total.merge(rep);
     }
     if cfg.wants(1) {
-        // pairs of boundary faults, active state and the state that parses the kind
-        let p = session::full_profile();
-        let mut plans = Vec::new();
-        let mut r = Rng::derive(seed, "C06-pairs", 0, 0);
-        let per = cfg.n(1500, 40000) as usize;
-        for kind in KINDS.iter() {
-            let (b, _) = build_kind(&p, kind, SID);
-            let sub = fault::boundary_subset(&b);
-            if sub.len() < 2 {
-                continue;
-            }
-            for _ in 0..per {
-                let (i, j) = (r.below(sub.len() as u64) as usize, r.below(sub.len() as u64) as usize);
-                if let Some(m) = fault::pair_fault(&b, &sub, i.min(j), i.max(j)) {
-                    let state = if r.chance(1, 2) { 5 } else { match *kind { "demand-active" => 0, "synchronize" => 1, "control-cooperate" => 2, "control-granted" => 3, "font-map" => 4, _ => r.below(6) as usize } };
-                    plans.push(Plan { state, kind: kind.to_string(), layer: "inner", via_tls: false, mutant: m });
-                }
-            }
-        }
+        let plans = pair_plans(seed, cfg.n(1500, 40000) as usize);
         let n = plans.len() as u64;
         let rep = par_run(cfg, n, 16, |idx, rep| {
             mon::begin_case(6, 1, idx, seed);
@@ -386,13 +454,7 @@ pub fn run(cfg: &Cfg) -> Report {
         let n = cfg.n(60_000, 4_000_000);
         let rep = par_run(cfg, n, 64, |idx, rep| {
             mon::begin_case(6, 2, idx, seed);
-            let mut r = Rng::derive(seed, "C06-rand", 2, idx);
-            let kind = *r.pick(&KINDS);
-            let other = *r.pick(&KINDS);
-            let (b, _) = build_kind(&p, kind, SID);
-            let (o2, _) = build_kind(&p, other, SID);
-            let m = fault::random_fault(&b, Some(&o2), &mut r);
-            let plan = Plan { state: r.below(6) as usize, kind: kind.to_string(), layer: "inner", via_tls: false, mutant: m };
+            let plan = random_plan(seed, idx);
             if let Ok(o) = run_plan(&plan) {
                 if o.consumed_fault {
                     rep.nontrivial(fnv(&plan.mutant.bytes) ^ idx);
@@ -407,13 +469,12 @@ pub fn run(cfg: &Cfg) -> Report {
         // all short byte strings at the PDU parser entries, in every state
         let maxlen = if cfg.quick() { 2 } else { 3 };
         let per_state = fault::short_string_count(maxlen);
-        let n = per_state * 6 * 2;
+        // entries: slow-path and fast-path (flags 0) in all six states, fast-path with flags 1, 2, 3 before activation and
+        // in the active state
+        let n = per_state * (6 * 2 + 3 * 2);
         let rep = par_run(cfg, n, 4096, |idx, rep| {
             mon::begin_case(6, 3, idx, seed);
-            let s = fault::short_string(idx % per_state);
-            let state = ((idx / per_state) % 6) as usize;
-            let layer = if idx / per_state / 6 == 0 { "global-raw" } else { "global-fp" };
-            let plan = Plan { state, kind: "short-string".into(), layer, via_tls: false, mutant: Mutant { class: "short-string".into(), bytes: s, at: 0 } };
+            let plan = short_plan(idx, per_state);
             if let Ok(o) = run_plan(&plan) {
                 rep.nontrivial(idx);
                 judge(&plan, &o, rep);
@@ -432,11 +493,19 @@ pub fn replay(cfg: &Cfg, v: &Value) -> Report {
         let a: Vec<u64> = a.as_array().unwrap().iter().map(|x| x.as_u64().unwrap()).collect();
         match a[1] {
             0 => all_plans(a[3], cfg.quick())[a[2] as usize].clone(),
-            _ => {
-                rep.eval();
-                rep.inconclusive("death case of a class that cannot be regenerated individually");
-                return rep;
+            1 => {
+                let plans = pair_plans(a[3], cfg.n(1500, 40000) as usize);
+                match plans.get(a[2] as usize) {
+                    Some(p) => p.clone(),
+                    None => {
+                        rep.eval();
+                        rep.inconclusive("death case index outside the regenerated pair plans");
+                        return rep;
+                    }
+                }
             }
+            2 => random_plan(a[3], a[2]),
+            _ => short_plan(a[2], fault::short_string_count(if cfg.quick() { 2 } else { 3 })),
         }
     } else {
         Plan::from_json(v)
